@@ -99,6 +99,12 @@ Fixpoint run_op (depth : nat) (op : bytes) (input : arg) : arg :=
               | AL [alg; d; r; e] =>
                   with_desc "PKIX public key" (pkix_attrs (arcs_of alg) (opt_bytes d) (opt_bytes r) (ecparams_of e))
               | _ => Err "asn1" end)
+  else if bytes_eqb op (bs "certspki") then
+    (* getCertificateInfo: the "Public key" child built from the certificate's SubjectPublicKeyInfo *)
+    obs_info (match i1 with
+              | AL [alg; d; r; e] =>
+                  with_desc "Public key" (pkix_attrs (arcs_of alg) (opt_bytes d) (opt_bytes r) (ecparams_of e))
+              | _ => Err "asn1" end)
   else if bytes_eqb op (bs "pkcs8") then
     obs_info (match i1 with
               | AL [alg; d; r; e] =>
